@@ -99,6 +99,9 @@ Host(i, x, st0, d, ch) ==
       [] n.t = "panic" -> Leave("h0", [r |-> Fail("panic", 0), st |-> st])
       [] n.t = "exit"  -> \* CloseWithExitCode (first close wins) then panic(ExitError(n.v))
                           Leave("h0", [r |-> Fail("exit", n.v), st |-> [st EXCEPT !.closed[i] = IF @ = 0 THEN n.v + 1 ELSE @]])
+      [] n.t = "cbrec" -> \* the host calls back into the guest function that called it, again and again: unbounded recursion
+                          \* THROUGH the host (every level is a new Go->guest entry): a stack-overflow error, like recinf
+                          [r |-> Fail("overflow", 0), st |-> st]
       [] n.t = "cb"    -> \* call back into guest function n.f of the same instance: a new Go->guest entry
            IF d >= MaxDepth THEN Leave("h0", [r |-> Ok(n.v), st |-> st])
            ELSE LET in == Entry(i, n.f, n.x, st, d + 1) IN
